@@ -257,7 +257,50 @@ def write_replay(prop, payload):
     return rel
 
 
+def source_fingerprint(path):
+    """hash of a Python file's AST without docstrings / positions (formatting-insensitive)"""
+    import ast
+    import hashlib
+
+    try:
+        tree = ast.parse(open(path, encoding="utf-8").read())
+    except Exception as e:  # unparsable source is a difference too
+        return "unparsable:%s" % type(e).__name__
+    for node in ast.walk(tree):
+        body = getattr(node, "body", None)
+        if isinstance(node, (ast.Module, ast.ClassDef, ast.FunctionDef, ast.AsyncFunctionDef)) and body \
+                and isinstance(body[0], ast.Expr) and isinstance(getattr(body[0], "value", None), ast.Constant) \
+                and isinstance(body[0].value.value, str):
+            node.body = body[1:] or [ast.Pass()]
+    return hashlib.sha256(ast.dump(tree, include_attributes=False).encode()).hexdigest()[:24]
+
+
+def changed_anchor_files(prop):
+    """anchored source files of `prop` whose code differs from the tree the model was written
+    against (fingerprints.json).  [] when nothing differs or nothing is recorded."""
+    p = os.path.join(VERIF, "fingerprints.json")
+    if not os.path.exists(p):
+        return []
+    try:
+        rec = json.load(open(p)).get(prop, {})
+        import alembic
+
+        root = os.path.dirname(os.path.dirname(os.path.abspath(alembic.__file__)))
+    except Exception:
+        return []
+    out = []
+    for f, h in sorted(rec.items()):
+        q = os.path.join(root, f)
+        if not os.path.isfile(q) or source_fingerprint(q) != h:
+            out.append(f)
+    return out
+
+
 def write_evidence(prop, ev):
-    os.makedirs(os.path.join(VERIF, "evidence"), exist_ok=True)
-    with open(os.path.join(VERIF, "evidence", "%s.json" % prop), "w") as f:
+    # a run against another checkout (VERIF_REPO=<scratch worktree>, used to evaluate seeded
+    # regressions) must not overwrite the evidence that describes /repo
+    other = os.environ.get("VERIF_REPO")
+    d = "evidence" if not other or os.path.realpath(other) == os.path.realpath("/repo") else os.path.join("replays", "evidence-other-checkout")
+    os.makedirs(os.path.join(VERIF, d), exist_ok=True)
+    with open(os.path.join(VERIF, d, "%s.json" % prop), "w") as f:
         json.dump(ev, f, indent=1, sort_keys=True, default=str)
